@@ -21,6 +21,7 @@ namespace Givaro {
     inline typename Poly1Dom<Domain,Dense>::Rep& Poly1Dom<Domain,Dense>::power_compose(Rep& W, const Rep& P, uint64_t b) const
     {
         Degree dp; degree(dp, P);
+        if (dp == Degree::deginfty) return assign(W, zero);
         Type_t lc;
         leadcoef(lc, P);
         assign( W, b*dp.value(), lc); // all coeffs to zero, except leading ...
